@@ -1,0 +1,13 @@
+//go:build verif
+
+package runner
+
+// VerifYield, when set by a verification harness, is called at named scheduling
+// points of the runner. It is nil (and the calls are no-ops) otherwise.
+var VerifYield func(point, label string)
+
+func verifYield(point, label string) {
+	if f := VerifYield; f != nil {
+		f(point, label)
+	}
+}
